@@ -24,6 +24,6 @@ PROPS = {
             "Float32 of the Lean runtime = Rust f32 for <, + and /2 (IEEE-754 binary32); exact for the dyadic tables",
             "theorems C17_update_* assume a linear order / field; f32 rounding is outside them",
         ],
-        "partial": "C17_closest is proved relative to the live matrix of the model (first strict minimum = the unique argmin for tie-free matrices); closed forms of single/complete linkage as min/max over leaf pairs are not proved (recurrences only).",
+        "partial": "C17_update_union_partial: for union linkage the callback argument sequence, the merged set and the key set of the new matrix are proved, the VALUES stored for the new entry (callback result per live entry) are only compared by the correspondence check; closed forms of single/complete linkage as min/max over leaf pairs are not proved (one-step recurrences C17_update_arith/_single/_complete/_average only); f32 rounding is outside the theorems (exact for the dyadic tables).",
     },
 }
